@@ -37,7 +37,7 @@ CHECKS = {
         "Every transition of the bounded storage model (3 addresses, all operations, 12 patch shapes naming every data member) is enumerated by TLC, "
         "checked against the property predicates, replayed on a real RepeaterStorage and the observed step judged by TLC; "
         "random long histories recorded from the real object are validated against the same predicates.",
-        "Bounded: <=3 records, depth 3/4, small value pools; ids are mapped to creation order; patches of id/method names excluded.",
+        "Bounded: <=2 records, depth 3/4, small value pools; ids are mapped to creation order; patches of id/method names excluded.",
     ),
     "C08": (
         "DESIGN.md 5/C08",
